@@ -861,6 +861,8 @@ func init() {
 			}
 		}
 		out = append(out, "damping-both:ka", "damping-both:badmarker", "damping-both:notif-other")
+		// a protocol error pending in the FSM's error hand-off when the manager stops that FSM (collision kill)
+		out = append(out, "collision-window:fsmerr:lid=10.0.0.100:i=0", "collision-window:fsmerr:lid=10.0.0.100:i=1")
 		return out
 	}
 	scenarioLists["C13"] = func(tier string, r *rand.Rand) []string {
